@@ -412,11 +412,20 @@ static int dispatch(TcpAsyncCtx *tcpCtx) {
 		/* Verify that the send timeout has not elapsed. */
 		if (tcpCtx->parent->options[KSI_ASYNC_OPT_SND_TIMEOUT] == 0 ||
 			(difftime(curTime, req->reqTime) > tcpCtx->parent->options[KSI_ASYNC_OPT_SND_TIMEOUT])) {
+			bool partiallySent = (req->sentCount > 0);
 			/* Set error. */
 			req->state = KSI_ASYNC_STATE_ERROR;
 			req->err = KSI_NETWORK_SEND_TIMEOUT;
+			req->sentCount = 0;
 			/* Just remove the request from the request queue. */
 			KSI_AsyncHandleList_remove(tcpCtx->reqQueue, 0, NULL);
+			if (partiallySent) {
+				/* A part of this request is already on the wire: the byte stream can not be continued with
+				 * another request, the connection has to be dropped. */
+				closeSocket(tcpCtx, __LINE__);
+				res = KSI_ASYNC_CONNECTION_CLOSED;
+				goto cleanup;
+			}
 			continue;
 		}
 
